@@ -5,6 +5,11 @@ from harness.core import Prop, c_nat, c_bytes, c_list
 ALPHA = [b'a', b'b', b'\n', b'\x00']
 
 
+def expand(chunks):
+    """a chunk is a list of byte values, or ['rep', byte, count] for a long run"""
+    return [bytes([c[1]]) * c[2] if c and c[0] == 'rep' else bytes(c) for c in chunks]
+
+
 def chunkings(stream, allow_empty_at=()):
     n = len(stream)
     for cuts in range(1 << max(n - 1, 0)):
@@ -74,6 +79,9 @@ class C06(Prop):
             {'max': 1, 'chunks': [[97, 97, 10, 98, 98, 10, 99, 10]], 'plan': [0]},
             {'max': 0, 'chunks': [[97] * 50, [10]], 'plan': [1, 0]},
             {'max': 3, 'chunks': [[], [10], [], [10, 10]], 'plan': [1]},
+            # 0 = unlimited: a segment longer than the default limit of 1,000,000 bytes, arriving in pieces
+            {'max': 0, 'chunks': [['rep', 97, 65536]] * 19 + [[98, 10, 111, 107, 10]], 'plan': [0]},
+            {'max': 0, 'chunks': [['rep', 97, 65536]] * 19 + [[98, 10, 111, 107, 10]], 'plan': [1]},
         ]
 
     def generate(self, rng, n, tier):
@@ -103,9 +111,11 @@ class C06(Prop):
                    'plan': [rng.randrange(2) for _ in range(rng.randrange(1, 4))]}
 
     def run_impl(self, case):
-        return asyncio.run(_drive(case['max'], case['chunks'], case['plan']))
+        return asyncio.run(_drive(case['max'], expand(case['chunks']), case['plan']))
 
     def coq_case(self, case, obs):
+        if sum(len(c) for c in expand(case['chunks'])) > 20000:
+            return None            # too long a literal for the model evaluation: oracle only
         res = c_list(['(Msg %s)' % c_bytes(bytes(r[1])) if r[0] == 'msg' else 'MemErr' for r in obs], 'result')
         chunks = c_list([c_bytes(bytes(c)) for c in case['chunks']], 'bytes')
         mx = case['max']
@@ -118,7 +128,7 @@ class C06(Prop):
 
     def oracle(self, case, obs):
         mx = case['max']
-        stream = b''.join(bytes(c) for c in case['chunks'])
+        stream = b''.join(expand(case['chunks']))
         segs = stream.split(b'\n')
         tail = segs.pop()
         msgs = [bytes(r[1]) for r in obs if r[0] == 'msg']
@@ -143,7 +153,7 @@ class C06(Prop):
         if nmem and all(fit(s) for s in segs) and fit(tail):
             return 'MemoryError although no segment exceeds the limit'
         if mx:
-            longest = max((len(c) for c in case['chunks']), default=0)
+            longest = max((len(c) for c in expand(case['chunks'])), default=0)
             for m in msgs:
                 if len(m) >= mx + max(longest, 1):
                     return 'delivered message exceeds the limit by more than a chunk'
